@@ -187,6 +187,16 @@ theorem C18_meminfo_keeps_iff (f : Option (List Byte)) :
     meminfo f = none ↔ (readPath memBuf f = none ∨
       ∃ b, readPath memBuf f = some b ∧ ∀ j, j ≤ (cstr b).length → ¬ memKey <+: (cstr b).drop j) := meminfo_none_iff f
 
+/-- the kernel's format (global and per-node meminfo alike): anything, then `MemTotal:` + blanks + decimal digits +
+anything that is no digit, the key not occurring earlier, the file NUL-free and within the 4095 bytes read: the value
+stored is the number of kB (saturated at 2^64-1 by strtoull) times 1024, modulo 2^64 -/
+theorem C18_meminfo_kernel (pre ds rest : List Byte) (k : Nat) (hne : ds ≠ []) (hds : ∀ c ∈ ds, IsDecChar c) (hr : NoDecHead rest)
+    (hfit : (pre ++ (memKey ++ (List.replicate k 32 ++ (ds ++ rest)))).length ≤ 4095)
+    (hnz : ∀ c ∈ pre ++ (memKey ++ (List.replicate k 32 ++ (ds ++ rest))), c ≠ 0)
+    (hfirst : ∀ j, j < pre.length → ¬ memKey <+: (pre ++ (memKey ++ (List.replicate k 32 ++ (ds ++ rest)))).drop j) :
+    meminfo (some (pre ++ (memKey ++ (List.replicate k 32 ++ (ds ++ rest))))) = some ((min (decVal ds) ulongMax * 1024) % 2^64) :=
+  meminfo_kernel pre ds rest k hne hds hr hfit hnz hfirst
+
 /-- strstr: the index found is the first occurrence, and only that -/
 theorem C18_strstr_first (pat s : List Byte) (i : Nat) : findSub pat s = some i ↔ FirstOcc pat s i := findSub_iff pat s i
 
@@ -266,6 +276,25 @@ theorem C18_mntpnt_first_match (acc : List Byte → Bool) (fs : FS) (bufsiz : Na
   have h := findMntpnt_scan acc fs bufsiz m h1 h2 h3
   refine ⟨h, fun pre e post r he hpre hx => ?_⟩
   rw [h, he]; exact findSome_first _ pre e post r hpre hx
+
+/-- well-formed kernel content (`fsname dir type opts 0 0` lines with plain fields — nothing to escape, no
+comment —, each shorter than the 4-page buffer): getmntent_r delivers exactly these entries, so the answer is the
+rule's verdict on the first line the rule accepts -/
+theorem C18_mntpnt_kernel (acc : List Byte → Bool) (fs : FS) (bufsiz : Nat) (rs : List MntRaw) (hwf : ∀ r ∈ rs, r.Ok bufsiz)
+    (h1 : acc (str "/sys/fs/cgroup/cpuset.cpus.effective") = false) (h2 : acc (str "/sys/fs/cgroup/cpuset/cpuset.cpus") = false)
+    (h3 : acc (str "/dev/cpuset/cpus") = false) :
+    findMntpnt acc fs bufsiz (some (renderMounts rs)) = (rs.map MntRaw.ent).findSome? (entMatch fs) := by
+  rw [findMntpnt_scan acc fs bufsiz _ h1 h2 h3,
+    entries_renderMounts bufsiz rs _ (by have := renderMounts_length_ge rs; omega) hwf]
+
+/-- the scan ends for every content: the fuel `length+1` that `findMntpnt` passes is enough (each getmntent_r call
+consumes at least one byte), more fuel changes nothing -/
+theorem C18_mntpnt_terminates (fs : FS) (bufsiz : Nat) (hb : 2 ≤ bufsiz) (fuel : Nat) (s : List Byte) (h : s.length < fuel) :
+    mntLoop fs bufsiz fuel s = mntLoop fs bufsiz (s.length + 1) s ∧
+    nextEnt bufsiz fuel s = nextEnt bufsiz (s.length + 1) s ∧
+    (∀ e r, nextEnt bufsiz fuel s = some (e, r) → r.length < s.length) :=
+  ⟨mntLoop_fuel fs bufsiz hb fuel _ s h (by omega), nextEnt_fuel bufsiz hb fuel _ s h (by omega),
+   fun e r => nextEnt_rest bufsiz hb fuel s e r⟩
 
 /-- the rule, by file-system type: `cpuset` always; `cgroup` iff `cpuset` is one of the comma-separated options
 (a cpuset mount when `noprefix` is one too); `cgroup2` iff `<dir>/cgroup.controllers` (name cut at 255 bytes)
@@ -397,5 +426,20 @@ example : cpusetPath .cgroup2 (str "/cg2") (str "/grp1") (str "cpus") = str "/cg
 /-- cpus replaced by {0..3} from the effective file, mems filled (no mems file) -/
 example : getAllowed (fun _ => false) exFs 16384 Bitmap.allocFull Bitmap.alloc =
     { name := some (str "/grp1"), cpus := some ⟨[0xf#64], false⟩, mems := some ⟨[BitVec.allOnes 64], true⟩ } := by decide
+
+/-- the hypotheses of `C18_mntpnt_kernel` are met by an ordinary container mount table -/
+example : (⟨str "cgroup", str "/sys/fs/cgroup/cpuset", str "cgroup", str "rw,nosuid,cpuset"⟩ : MntRaw).Ok 16384 := by
+  refine ⟨⟨by decide, by decide⟩, ⟨by decide, by decide⟩, ⟨by decide, by decide⟩, ⟨by decide, by decide⟩, ?_, by decide⟩
+  intro t h
+  have e : str "cgroup" = [99, 103, 114, 111, 117, 112] := by decide
+  rw [show (⟨str "cgroup", str "/sys/fs/cgroup/cpuset", str "cgroup", str "rw,nosuid,cpuset"⟩ : MntRaw).fsname = str "cgroup" from rfl, e] at h
+  injection h with h1 _
+  exact absurd h1 (by decide)
+example : renderMounts [⟨str "proc", str "/proc", str "proc", str "rw"⟩, ⟨str "none", str "/cs", str "cpuset", str "rw"⟩] =
+    str "proc /proc proc rw 0 0\nnone /cs cpuset rw 0 0\n" := by decide
+
+/-- the shape `C18_meminfo_kernel` speaks about: a per-node meminfo line -/
+example : str "Node 0 " ++ (memKey ++ (List.replicate 7 32 ++ (str "16384" ++ str " kB\n"))) = str "Node 0 MemTotal:        16384 kB\n" ∧
+    meminfo (some (str "Node 0 MemTotal:        16384 kB\n")) = some (16384 * 1024) := by decide
 
 end Hw.Props.C18
